@@ -2,7 +2,9 @@
 
 Oracle: exact rational antiderivative (fractions.Fraction) for polynomials of degree <= 2n-1; the closed-form
 error term of the n-point rule for x^(2n) (so a silently different n is visible); extracted abscissae vs numpy's
-Gauss-Legendre nodes; an independent f64 Gauss-Legendre sum of f(tan t) sec^2 t for infinite limits.
+Gauss-Legendre nodes; an independent f64 Gauss-Legendre sum of f(tan t) sec^2 t for infinite limits; the double sum over
+two such rules for a quad called inside the integrand of a quad (re-entrancy), each call of a sequence against its own rule.
+Limits given as tensors of another dtype than the integrand's (float32 <-> float64, int64) are the numbers they hold.
 """
 from __future__ import annotations
 
@@ -16,15 +18,26 @@ from hypothesis import strategies as st
 from pbt.harness import Task, ok, violation, discard
 
 PID = "C12"
-RULE = ("cases drawn from: n in 1..60 (thorough 300) x polynomial of degree <= 2n-1 with small rational coefficients "
-        "(or the monomial x^(2n) for the error-term test) x interval (any orientation, |x| from 1e-3 to 1e2) x limit form "
-        "(int/float/0-d tensor/1-element tensor) x dtype x output kind (scalar/tensor/tuple) x relation "
-        "(exactness, linearity, swap, additivity, nodes, infinite limits). Non-trivial = n>=2, degree>=2 (or infinite limits) and xl != xu; "
+RULE = ("task quad: n in 1..60 (thorough 300) x polynomial of degree <= 2n-1 with small rational coefficients "
+        "(or the monomial x^(2n) for the error-term test) x interval (any orientation, |x| from 1e-3 to 1e2, down to subnormal) x limit form "
+        "(int/float/0-d tensor/1-element tensor) x dtype of a tensor limit (the integrand's, or float32 with a float64 integrand, float64 "
+        "with a float32 integrand, integer-valued int64) x float32 parameter tensor with a float64 integrand x dtype x output kind "
+        "(scalar/tensor/tuple) x relation (exactness, linearity, swap, additivity, nodes, infinite limits, stored constant). "
+        "task reentrant: quad called by the integrand of quad (iterated integral int dx int dy F(x,y), normalisation constant computed "
+        "inside the integrand): outer and inner interval each finite / half-infinite / doubly infinite in both orientations, inner limits "
+        "fixed or running with x, inner n equal to or different from the outer n, inner integrand float64 or float32, x handed over "
+        "by closure or through params, limit forms/dtypes as above; and sequences of 2-4 calls on different intervals followed by the "
+        "first call again. Non-trivial = n>=2, degree>=2 (or infinite limits / nested / sequence with non-zero reference) and xl != xu; "
         "distinct by canonical case.")
 ASSUMPTIONS = [
     "rounding model: |error| <= (20(deg+2)+4n) eps sum_k|c_k| M^k |xu-xl| for Horner evaluation in the case dtype",
     "numpy.polynomial.legendre.leggauss is the reference for nodes (independent of xitorch's mapping code)",
     "infinite limits: reference is an independent float64 n-point rule on f(tan t)/cos^2 t",
+    "a one-element tensor limit IS the number it holds (exactly, in its own dtype): the reference interval is [float(xl), float(xu)] "
+    "brought to the dtype of the integrand's output, in which the rule is built; the tolerance uses the eps of that dtype only",
+    "abscissae: 8 eps M plus 8 spacings of the subnormal range (tiny*eps) as absolute floor",
+    "nested calls: reference = double sum over the two independent rules, tolerance 1e3 eps64 (sum of absolute terms), plus "
+    "1e3 eps32 of the same when the inner integrand is float32 (measured: <= 6 eps on the unchanged tree)",
 ]
 LEVEL_TEXT = ("Exploration with a complete characterisation as oracle: an n-node rule exact to degree 2n-1 is the Gauss-Legendre rule, "
               "checked against exact rational arithmetic plus the closed-form error for degree 2n and direct node extraction.")
@@ -36,8 +49,12 @@ DT = {"f32": torch.float32, "f64": torch.float64}
 
 def poly_eval(x, coefs, dtype=None):
     # Horner; coefs[k] multiplies x^k. Numbers (the probe call passes xl as given) are taken in the case dtype
+    # (and tensor limits of another dtype - float32 / int64 one-element tensors - are brought to the integrand's dtype:
+    # the integrand is a float64 [float32] function whatever it is handed)
     if not isinstance(x, torch.Tensor):
         x = torch.as_tensor(x, dtype=dtype)
+    elif dtype is not None and x.dtype != dtype:
+        x = x.to(dtype)
     y = torch.zeros_like(x) + coefs[-1]
     for c in reversed(coefs[:-1]):
         y = y * x + c
@@ -51,22 +68,35 @@ def exact_integral(coefs_frac, a: Fraction, b: Fraction) -> Fraction:
     return s
 
 
-def mk_limit(val: float, form: str, dtype):
+LDT = {"f32": torch.float32, "f64": torch.float64, "i64": torch.int64}
+
+
+def mk_limit(val: float, form: str, dtype, ldt=None):
+    """the limit as the caller hands it over; `ldt` = dtype of a tensor limit when it is not the integrand's
+    (a float32 tensor - what torch.tensor(0.3) gives - with a float64 integrand, the reverse, an int64 tensor)"""
     if form == "int":
         return int(val)
     if form == "float":
         return float(val)
+    tdt = LDT[ldt] if ldt else dtype
+    if tdt == torch.int64:
+        val = int(val)
     if form == "t0":
-        return torch.tensor(val, dtype=dtype)
+        return torch.tensor(val, dtype=tdt)
     if form == "t1":
-        return torch.tensor([val], dtype=dtype)
+        return torch.tensor([val], dtype=tdt)
     raise ValueError(form)
 
 
-def limit_value(val, form, dtype) -> float:
-    """the float the code will actually integrate to (after conversion to the case dtype)"""
+def limit_value(val, form, dtype, ldt=None) -> float:
+    """the float the code will actually integrate to: the number the caller's limit IS (a python number, or the exact
+    value of the one-element tensor in its own dtype), brought to the integrand's dtype"""
     if form == "int":
         val = int(val)
+    if form in ("t0", "t1") and ldt:
+        if LDT[ldt] == torch.int64:
+            val = int(val)
+        return float(torch.tensor(val, dtype=LDT[ldt]).to(dtype))
     return float(torch.as_tensor(val, dtype=dtype))
 
 
@@ -86,28 +116,41 @@ def run_case(case):
 
     if rel == "inf":
         return run_inf(case, labels)
+    if rel == "nested":
+        return run_nested(case, labels)
+    if rel == "seq":
+        return run_seq(case, labels)
 
     coefs_f = [Fraction(p, q) for p, q in case["coefs"]]
     coefs = [float(c) for c in coefs_f]
-    # coefficients as they are seen in the case dtype
-    coefs_t = [float(torch.tensor(c, dtype=dtype)) for c in coefs]
+    # coefficients as they are seen in the case dtype (or in the dtype of the parameter tensor when that is float32 with a
+    # float64 integrand: the values are then exact in both, and the integrand's output - hence quad's dtype - is float64)
+    pdt = DT[case.get("pdt") or case["dtype"]]
+    coefs_t = [float(torch.tensor(c, dtype=pdt)) for c in coefs]
     coefs_fr = [Fraction(c) for c in coefs_t]
     deg = len(coefs) - 1
-    xlv = limit_value(case["xl"], case["xlform"], dtype)
-    xuv = limit_value(case["xu"], case["xuform"], dtype)
-    xl = mk_limit(case["xl"], case["xlform"], dtype)
-    xu = mk_limit(case["xu"], case["xuform"], dtype)
+    xldt, xudt = case.get("xldt"), case.get("xudt")
+    xlv = limit_value(case["xl"], case["xlform"], dtype, xldt)
+    xuv = limit_value(case["xu"], case["xuform"], dtype, xudt)
+    xl = mk_limit(case["xl"], case["xlform"], dtype, xldt)
+    xu = mk_limit(case["xu"], case["xuform"], dtype, xudt)
+    for nm, form, ld in (("xl", case["xlform"], xldt), ("xu", case["xuform"], xudt)):
+        if form in ("t0", "t1"):
+            labels.append("%sdt=%s" % (nm, "same" if not ld or LDT[ld] == dtype else ld + "_in_" + case["dtype"]))
+    if pdt != dtype:
+        labels.append("pdt=f32_in_f64")
     a, b = Fraction(xlv), Fraction(xuv)
     M = max(abs(xlv), abs(xuv))
     width = abs(xuv - xlv)
 
     calls = []
-    ctens = torch.tensor(coefs_t, dtype=dtype)
+    ctens = torch.tensor(coefs_t, dtype=pdt)
 
     def f(x, c):
-        x = torch.as_tensor(x, dtype=dtype)     # the probe call passes xl as the caller gave it (maybe a number)
+        # the probe call passes xl as the caller gave it (maybe a number, maybe a tensor of another dtype)
+        x = torch.as_tensor(x).to(dtype) if isinstance(x, torch.Tensor) else torch.as_tensor(x, dtype=dtype)
         calls.append(x.detach().clone())
-        return poly_eval(x, list(c), dtype)
+        return poly_eval(x, [ck.to(dtype) for ck in c], dtype)
 
     def tol_for(cfs, d=None):
         d = len(cfs) - 1 if d is None else d
@@ -160,8 +203,12 @@ def run_case(case):
         nodes, _ = np.polynomial.legendre.leggauss(n)
         refx = sorted(0.5 * (xuv - xlv) * nodes + 0.5 * (xuv + xlv))
         lo, hi = min(xlv, xuv), max(xlv, xuv)
+        # relative spacing eps*M of the affine map, plus an absolute floor of a few spacings of the subnormal range
+        # (tiny*eps = the smallest subnormal: limits such as 1e-41 in float32 are legitimate numbers, the relative model
+        # does not hold there - false alarm at VERIF_SEED=36 otherwise)
+        ntol = 8 * eps * M + 8 * tiny * eps
         for x, rx in zip(xs, refx):
-            if abs(x - rx) > 8 * eps * max(M, 1e-300) or x < lo - 8 * eps * M or x > hi + 8 * eps * M:
+            if abs(x - rx) > ntol or x < lo - ntol or x > hi + ntol:
                 return violation("nodes", "abscissa %r differs from Gauss-Legendre node %r on [%r,%r]" % (x, rx, xlv, xuv))
         return ok(labels, nontrivial)
 
@@ -206,7 +253,10 @@ def run_case(case):
 
     if rel == "additive":
         xmv = limit_value(case["xm"], "float", dtype)
-        xm = mk_limit(case["xm"], case["xlform"] if case["xlform"] != "int" else "float", dtype)
+        xm = mk_limit(case["xm"], case["xlform"] if case["xlform"] != "int" else "float", dtype,
+                      xldt if xldt in ("f32", "f64") else None)
+        if xldt in ("f32", "f64") and case["xlform"] in ("t0", "t1"):
+            xmv = limit_value(case["xm"], "t0", dtype, xldt)
         M2 = max(M, abs(xmv))
         w2 = abs(xmv - xlv) + abs(xuv - xmv)
         tol = (20 * (deg + 2) + 4 * n) * eps * S_bound(coefs_t, M2) * (w2 + width) + 1e3 * tiny * (1 + S_bound(coefs_t, M2))
@@ -252,24 +302,40 @@ def run_case(case):
     raise ValueError(rel)
 
 
-def run_inf(case, labels):
-    from xitorch.integrate import quad
-    n = case["n"]
-    dtype = torch.float64
-    fam, a, p = case["fam"], case["a"], case["p"]
-    inf = float("inf")
-    lim = {"ninf": -inf, "pinf": inf}
-    xlv = lim.get(case["xl"], case["xl"])
-    xuv = lim.get(case["xu"], case["xu"])
-    form = case["xlform"]
+INF = float("inf")
+K_RULE = 1e3    # rule-vs-rule comparisons: K_RULE * eps * (sum of the absolute terms of the reference sum)
 
-    def mk(v):
-        if form == "float":
-            return float(v)
-        return torch.tensor(v, dtype=dtype) if form == "t0" else torch.tensor([v], dtype=dtype)
 
+def _endval(v):
+    return {"ninf": -INF, "pinf": INF}.get(v, v)
+
+
+def _mk_end(v, form, ldt=None):
+    """a (possibly infinite) limit as the caller hands it over: python float, 0-d or one-element tensor (float64, or
+    float32 = what torch.tensor(v) gives; all generated finite values are exactly representable in float32)"""
+    if form == "float":
+        return float(v)
+    dt = LDT[ldt] if ldt else torch.float64
+    return torch.tensor(v, dtype=dt) if form == "t0" else torch.tensor([v], dtype=dt)
+
+
+def ref_rule(n, xlv, xuv):
+    """abscissae and weights (float64 tensors) of the n-point Gauss-Legendre rule on [xlv, xuv]; with an infinite limit
+    the rule on [atan xl, atan xu] for f(tan t) sec^2 t, i.e. abscissae tan t_i and weights w_i / cos^2 t_i.
+    Independent of xitorch: numpy's nodes, plain arithmetic."""
+    nodes, w = np.polynomial.legendre.leggauss(n)
+    if math.isinf(xlv) or math.isinf(xuv):
+        tl, tu = math.atan(xlv), math.atan(xuv)
+        t = torch.tensor(0.5 * (tu - tl) * nodes + 0.5 * (tu + tl), dtype=torch.float64)
+        wt = torch.tensor(w * 0.5 * (tu - tl), dtype=torch.float64)
+        return torch.tan(t), wt / torch.cos(t) ** 2
+    x = torch.tensor(0.5 * (xuv - xlv) * nodes + 0.5 * (xuv + xlv), dtype=torch.float64)
+    return x, torch.tensor(w * 0.5 * (xuv - xlv), dtype=torch.float64)
+
+
+def fam1(fam, a, p):
     def f(x):
-        x = torch.as_tensor(x, dtype=dtype)
+        x = torch.as_tensor(x).to(torch.float64)
         if fam == "gauss":
             return torch.exp(-a * x * x) * (1 + p * x * x)
         if fam == "lorentz":
@@ -277,16 +343,30 @@ def run_inf(case, labels):
         if fam == "exp":
             return torch.exp(-a * torch.abs(x)) * (1 + p * torch.abs(x))
         raise ValueError(fam)
+    return f
 
-    res = quad(f, mk(xlv), mk(xuv), n=n)
-    tl, tu = math.atan(xlv), math.atan(xuv)
-    nodes, w = np.polynomial.legendre.leggauss(n)
-    t = torch.tensor(0.5 * (tu - tl) * nodes + 0.5 * (tu + tl), dtype=dtype)
-    wt = torch.tensor(w * 0.5 * (tu - tl), dtype=dtype)
-    ref = float((wt * f(torch.tan(t)) / torch.cos(t) ** 2).sum())
-    scale = float((wt.abs() * (f(torch.tan(t)) / torch.cos(t) ** 2).abs()).sum()) + 1e-300
+
+def one_call(sub):
+    """one quad call on a decaying integrand (finite, half- or doubly-infinite interval): (value, reference, scale)"""
+    from xitorch.integrate import quad
+    f = fam1(sub["fam"], sub["a"], sub["p"])
+    xlv, xuv = _endval(sub["xl"]), _endval(sub["xu"])
+    res = quad(f, _mk_end(xlv, sub["xlform"], sub.get("ldt")), _mk_end(xuv, sub.get("xuform", sub["xlform"]), sub.get("ldt")), n=sub["n"])
+    xs, wt = ref_rule(sub["n"], xlv, xuv)
+    terms = wt * f(xs)
+    return res, float(terms.sum()), float(terms.abs().sum()) + 1e-300
+
+
+def run_inf(case, labels):
+    n = case["n"]
+    fam, a, p = case["fam"], case["a"], case["p"]
+    inf = INF
+    xlv, xuv = _endval(case["xl"]), _endval(case["xu"])
+    res, ref, scale = one_call(case)
+    if res.dtype != torch.float64:
+        return violation("dtype", "result dtype %s of a float64 integrand (limits %s/%s)" % (res.dtype, case["xlform"], case.get("ldt")), labels)
     got = float(res.reshape(-1)[0])
-    if not abs(got - ref) <= 1e3 * 2.2e-16 * scale:
+    if not abs(got - ref) <= K_RULE * 2.2e-16 * scale:
         return violation("inf_rule", "fam=%s [%r,%r] n=%d: quad=%r, tan-substituted rule=%r" % (fam, xlv, xuv, n, got, ref))
     # closed forms where available (n >= 100, doubly infinite or half infinite from 0)
     closed = None
@@ -299,7 +379,95 @@ def run_inf(case, labels):
             closed = math.pi / math.sqrt(a) * (1 if full else 0.5)
     if closed is not None and abs(got - closed) > 2e-5 * abs(closed):
         return violation("inf_closed_form", "fam=%s n=%d: quad=%r closed form=%r" % (fam, n, got, closed))
-    labels = labels + ["fam=" + fam, "closed" if closed is not None else "noclosed"]
+    labels = labels + ["fam=" + fam, "closed" if closed is not None else "noclosed", "ldt=%s" % (case.get("ldt") or "same")]
+    return ok(labels, True)
+
+
+# ------------------------------------------------------------------ re-entrancy: quad inside the integrand of quad; call sequences
+
+def fam2(fam, a, b, r, p):
+    """decaying two-variable integrands, |F| <= 1 + p*y^2*exp(..) bounded; evaluated in the dtype of y"""
+    def F(x, y):
+        if fam == "gauss2":
+            return torch.exp(-(a * x * x - 2 * r * math.sqrt(a * b) * x * y + b * y * y)) * (1 + p * y * y)
+        if fam == "lorentz2":
+            return 1.0 / (1 + a * x * x + b * y * y) ** (2 + p)
+        if fam == "sepexp":     # the inner integral is a normalisation constant: it does not depend on x
+            return torch.exp(-b * torch.abs(y)) * (1 + p * torch.abs(y)) + 0 * x
+        raise ValueError(fam)
+    return F
+
+
+def kind_of(xlv, xuv):
+    a, b = math.isinf(xlv), math.isinf(xuv)
+    return "finite" if not (a or b) else "doubly" if (a and b) else "half"
+
+
+def run_nested(case, labels):
+    """int dx g(x) int dy F(x, y): the inner quad is called by the integrand of the outer one (iterated integral /
+    normalisation constant computed inside the integrand). Reference: the double sum over the two independent rules."""
+    from xitorch.integrate import quad
+    f64 = torch.float64
+    o, i = case["outer"], case["inner"]
+    F = fam2(case["fam"], case["a"], case["b"], case["r"], case["p"])
+    idt = DT[i.get("dtype", "f64")]
+    oxl, oxu = _endval(o["xl"]), _endval(o["xu"])
+    ixl, ixu = _endval(i["xl"]), _endval(i["xu"])
+    lim = i.get("lim", "fixed")      # fixed | from_x (lower limit = x) | to_x (upper limit = x)
+    ga = case["a"] if case["fam"] == "sepexp" else 0.0
+    ncalls = [0]
+
+    def outer_f(x):
+        x = torch.as_tensor(x).to(f64)
+        xi = x.to(idt)
+
+        def inner_f(y, *xp):
+            ncalls[0] += 1
+            xx = xp[0] if xp else xi
+            return F(xx, torch.as_tensor(y).to(idt))
+        il = x if lim == "from_x" else _mk_end(ixl, i["form"], i.get("ldt"))
+        iu = x if lim == "to_x" else _mk_end(ixu, i["form"], i.get("ldt"))
+        inner = quad(inner_f, il, iu, params=((xi,) if i.get("pass") == "params" else ()), n=i["n"])
+        return torch.exp(-ga * torch.abs(x)) * inner.to(f64).reshape(x.shape)
+
+    res = quad(outer_f, _mk_end(oxl, o["form"], o.get("ldt")), _mk_end(oxu, o["form"], o.get("ldt")), n=o["n"])
+    if res.dtype != f64 or res.numel() != 1:
+        return violation("nested_type", "nested quad returned dtype %s shape %s" % (res.dtype, tuple(res.shape)), labels)
+    if ncalls[0] != (o["n"] + 1) * (i["n"] + 1):
+        return violation("nested_neval", "inner integrand evaluated %d times, expected (n_o+1)(n_i+1)=%d" % (ncalls[0], (o["n"] + 1) * (i["n"] + 1)), labels)
+    # reference
+    xs, wo = ref_rule(o["n"], oxl, oxu)
+    tot = 0.0
+    scale = 0.0
+    for x, w in zip(xs, wo):
+        xq = float(x.to(idt))     # the integrand hands x to the inner integrand in the inner dtype
+        ys, wi = ref_rule(i["n"], float(xq) if lim == "from_x" else ixl, float(xq) if lim == "to_x" else ixu)
+        terms = wi * F(torch.tensor(xq, dtype=f64), ys) * float(w) * math.exp(-ga * abs(float(x)))
+        tot += float(terms.sum())
+        scale += float(terms.abs().sum())
+    got = float(res.reshape(-1)[0])
+    # float64 rounding of both rules; a float32 inner integral carries 1e3*eps32 of its own summed terms
+    tol = K_RULE * 2.2e-16 * (scale + 1e-300) + (K_RULE * 1.2e-7 * scale if idt == torch.float32 else 0.0)
+    labels = labels + ["outer=" + kind_of(oxl, oxu), "inner=" + kind_of(ixl, ixu) + ("" if lim == "fixed" else "_" + lim),
+                       "inner_dtype=" + i.get("dtype", "f64"), "same_n=%s" % (o["n"] == i["n"]), "fam=" + case["fam"],
+                       "pass=" + i.get("pass", "closure")]
+    if not abs(got - tot) <= tol:
+        return violation("nested_rule", "fam=%s outer [%r,%r] n=%d, inner [%r,%r] (%s) n=%d %s: quad=%r, double sum over the two rules=%r (tol %.2e)" % (
+            case["fam"], oxl, oxu, o["n"], ixl, ixu, lim, i["n"], i.get("dtype", "f64"), got, tot, tol), labels)
+    return ok(labels, scale > 0 and oxl != oxu)
+
+
+def run_seq(case, labels):
+    """calls on different intervals one after the other, the first one once more at the end: every call equals its own
+    reference (nothing of a call survives into the next)"""
+    subs = case["subs"]
+    order = list(range(len(subs))) + [0]
+    for k in order:
+        res, ref, scale = one_call(subs[k])
+        got = float(res.reshape(-1)[0])
+        if not abs(got - ref) <= K_RULE * 2.2e-16 * scale:
+            return violation("seq_rule", "call #%d of the sequence %r: quad=%r, rule=%r" % (k, [(s_["xl"], s_["xu"], s_["n"]) for s_ in subs], got, ref), labels)
+    labels = labels + ["seq=" + "+".join(sorted(set(kind_of(_endval(s_["xl"]), _endval(s_["xu"])) for s_ in subs)))]
     return ok(labels, True)
 
 
@@ -318,18 +486,59 @@ def _limit(draw, form, deg):
     return draw(st.floats(-1, 1, allow_nan=False, allow_subnormal=False, width=32)) * mag
 
 
+_f32 = st.floats(-2, 2, allow_nan=False, allow_subnormal=False, width=32)
+_tforms = st.sampled_from(["float", "t0", "t1"])
+
+
+@st.composite
+def _ends(draw, infinite=True):
+    """limits of a decaying-integrand call: doubly / half infinite in both orientations, or (infinite=False allowed) finite"""
+    opts = [("ninf", "pinf"), (0.0, "pinf"), ("ninf", 0.0), ("pinf", "ninf"), (draw(_f32), "pinf"), ("ninf", draw(_f32)),
+            ("pinf", draw(_f32))]
+    if not infinite:
+        opts += [(draw(_f32), draw(_f32)), (draw(_f32), draw(_f32)), (-1.0, 1.0)]
+    return draw(st.sampled_from(opts))
+
+
+@st.composite
+def _sub_st(draw, infinite=True, nmax=40):
+    ends = draw(_ends(infinite))
+    return {"n": draw(st.integers(2, nmax)), "fam": draw(st.sampled_from(["gauss", "lorentz", "exp"])),
+            "a": draw(st.sampled_from([0.5, 1.0, 2.0, 0.3])), "p": draw(st.sampled_from([0, 0, 1, 2])),
+            "xl": ends[0], "xu": ends[1], "xlform": draw(_tforms), "xuform": draw(_tforms),
+            "ldt": draw(st.sampled_from([None, None, "f32"]))}
+
+
+@st.composite
+def reentrant_st(draw, tier="quick"):
+    """quad called by the integrand of quad (inner finite / half- / doubly-infinite x outer the same; other n, dtype, limit
+    forms; inner limits fixed or running with x) and sequences of calls on different intervals"""
+    if draw(st.integers(0, 4)) == 0:
+        subs = [draw(_sub_st(infinite=False, nmax=24)) for _ in range(draw(st.integers(2, 4)))]
+        return {"rel": "seq", "n": subs[0]["n"], "dtype": "f64", "subs": subs}
+    nmax = 16 if tier == "quick" else 24
+    no = draw(st.integers(2, nmax))
+    ni = draw(st.one_of(st.just(no), st.integers(2, nmax)))
+    oe = draw(_ends(infinite=False))
+    ie = draw(_ends(infinite=False))
+    lim = draw(st.sampled_from(["fixed", "fixed", "fixed", "from_x", "to_x"]))
+    outer = {"n": no, "xl": oe[0], "xu": oe[1], "form": draw(_tforms), "ldt": draw(st.sampled_from([None, None, "f32"]))}
+    inner = {"n": ni, "xl": ie[0], "xu": ie[1], "form": draw(_tforms), "ldt": draw(st.sampled_from([None, None, "f32"])),
+             "lim": lim, "dtype": draw(st.sampled_from(["f64", "f64", "f64", "f32"])), "pass": draw(st.sampled_from(["closure", "params"]))}
+    return {"rel": "nested", "n": no, "dtype": "f64", "fam": draw(st.sampled_from(["gauss2", "gauss2", "lorentz2", "sepexp"])),
+            "a": draw(st.sampled_from([0.5, 1.0, 2.0, 0.3])), "b": draw(st.sampled_from([0.5, 1.0, 2.0, 0.3])),
+            "r": draw(st.sampled_from([0.0, 0.3, -0.5, 0.8])), "p": draw(st.sampled_from([0, 0, 1])), "outer": outer, "inner": inner}
+
+
 @st.composite
 def case_st(draw, tier="quick"):
     nmax = 60 if tier == "quick" else 300
     rel = draw(st.sampled_from(["exact", "exact", "exact", "nodes", "errterm", "linear", "swap", "additive", "tuple", "tensor", "inf", "stored"]))
     if rel == "inf":
         n = draw(st.one_of(st.integers(2, 40), st.sampled_from([100, 150, 200])))
-        fam = draw(st.sampled_from(["gauss", "lorentz", "exp"]))
-        ends = draw(st.sampled_from([("ninf", "pinf"), (0.0, "pinf"), ("ninf", 0.0), ("pinf", "ninf"),
-                                     (draw(st.floats(-2, 2, width=32)), "pinf"), ("ninf", draw(st.floats(-2, 2, width=32)))]))
-        return {"rel": rel, "n": n, "dtype": "f64", "fam": fam, "a": draw(st.sampled_from([0.5, 1.0, 2.0, 0.3])),
-                "p": draw(st.sampled_from([0, 0, 1, 2])), "xl": ends[0], "xu": ends[1],
-                "xlform": draw(st.sampled_from(["float", "t0", "t1"]))}
+        sub = draw(_sub_st(infinite=True))
+        sub.update({"rel": rel, "n": n, "dtype": "f64"})
+        return sub
     dtype = draw(st.sampled_from(["f64", "f64", "f32"]))
     if rel == "errterm":
         n = draw(st.integers(1, 10 if dtype == "f64" else 4))
@@ -348,6 +557,17 @@ def case_st(draw, tier="quick"):
         xl = draw(st.floats(-2, 0, width=32)); xlform = draw(st.sampled_from(["float", "t0", "t1"]))
         xu = xl + draw(st.sampled_from([0.5, 1.0, 2.0, 3.0])); xuform = draw(st.sampled_from(["float", "t0", "t1"]))
     case = {"rel": rel, "n": n, "dtype": dtype, "coefs": coefs, "xl": xl, "xu": xu, "xlform": xlform, "xuform": xuform}
+    # dtype of a tensor limit / of the parameter tensor when it is not the integrand's: float32 limit tensors (what
+    # torch.tensor(0.3) gives) with a float64 integrand, the reverse, integer-valued int64 tensors
+    for nm, form in (("xl", xlform), ("xu", xuform)):
+        if form in ("t0", "t1") and rel != "errterm":
+            ldt = draw(st.sampled_from([None, None, "f32", "f64", "i64"]))
+            if ldt == "i64":
+                case[nm] = _limit(draw, "int", deg)
+            if ldt:
+                case[nm + "dt"] = ldt
+    if rel in ("exact", "nodes", "swap", "additive") and dtype == "f64" and draw(st.integers(0, 3)) == 0:
+        case["pdt"] = "f32"
     if rel == "stored":
         case["stored"] = draw(st.sampled_from(["param", "view", "reshape", "index"]))
     if rel in ("linear", "tuple", "tensor"):
@@ -362,4 +582,5 @@ def case_st(draw, tier="quick"):
 
 
 def tasks(tier):
-    return [Task("quad", strategy=case_st(tier), run=run_case, examples={"quick": 2400, "thorough": 40000})]
+    return [Task("quad", strategy=case_st(tier), run=run_case, examples={"quick": 2400, "thorough": 40000}),
+            Task("reentrant", strategy=reentrant_st(tier), run=run_case, examples={"quick": 400, "thorough": 6000})]
